@@ -244,6 +244,7 @@ func (eng *Engine) runJobs(tag string, vjobs []vjob, timeout time.Duration, work
 	run.genTime = time.Since(t0).Seconds()
 	t1 := time.Now()
 	results := make([]*OblResult, len(jobs))
+	retried := 0
 	var wg sync.WaitGroup
 	sem := make(chan struct{}, workers)
 	// phase 1: the reachability probes (short queries); phase 2: everything else, except postconditions at returns whose
@@ -313,6 +314,22 @@ func (eng *Engine) runJobs(tag string, vjobs []vjob, timeout time.Duration, work
 		}(i, j)
 	}
 	wg.Wait()
+	// obligations that timed out get one more attempt, one at a time and with twice the time: a time-out under load
+	// (sixteen solvers in parallel, other jobs on the machine) is not a verdict
+	for i, j := range jobs {
+		r := results[i]
+		if r == nil || j.o.probe || r.Status != "timeout" || eng.isUnclaimedName(j.o.name) {
+			continue
+		}
+		if retried >= 12 {
+			break // a function that is really broken times out everywhere: do not spend minutes on it
+		}
+		retried++
+		r2 := eng.discharge(j.g, j.o, j.dir, j.idx, 2*timeout, false)
+		r2.gen, r2.dir, r2.idx = j.g, j.dir, j.idx
+		r2.Attempts = append(append([]string{}, r.Attempts...), append([]string{"retry:"}, r2.Attempts...)...)
+		results[i] = r2
+	}
 	run.solveTime = time.Since(t1).Seconds()
 	run.results = results
 	for _, r := range results {
